@@ -1288,21 +1288,24 @@ def run(ctx):
         return C.finish(ctx)
 
     # ---- model, all four variants -------------------------------------------------------------
-    variants = [(1, 1), (0, 1), (1, 0), (0, 0)]
+    # the variants are tried in turn (today's expected one first); the remaining ones are only run for the
+    # diagnosis when none reproduces the implementation
+    variants = [(0, 1), (1, 1), (0, 0), (1, 0)]
 
     def model_run(fx):
-        res = {}
-        for p in procs:
-            res[p.name] = run_model(model_lines(p, lay, fx))
-        return res
-    with ThreadPoolExecutor(4) as ex:
-        mres = dict(zip(variants, ex.map(model_run, variants)))
-    diffs = {}
+        with ThreadPoolExecutor(8) as exm:
+            outs = list(exm.map(lambda p: run_model(model_lines(p, lay, fx)), procs))
+        return {p.name: o for p, o in zip(procs, outs)}
+    mres, diffs = {}, {}
     for fx in variants:
+        mres[fx] = model_run(fx)
         d = []
         for p in procs:
             d += [(p, i, w) for i, w in compare_proc(p, lay, fx, mres[fx][p.name])]
         diffs[fx] = d
+        if not d:
+            break
+    variants = [fx for fx in variants if fx in diffs]
     matching = [fx for fx in variants if not diffs[fx]]
     ncalls = sum(len(p.calls) for p in procs)
     best = matching[0] if matching else min(variants, key=lambda fx: len(diffs[fx]))
